@@ -305,12 +305,19 @@ Definition v_mksum (a : val) : option val :=
 (* list(x) *)
 Definition v_mklist (a : val) : option val :=
   match a with VL l => Some (VL l) | VSum l => Some (VL l) | _ => None end.
+(* x.copy() : OpSum.copy gives an OpSum, list.copy a list *)
 Definition v_copy (a : val) : option val :=
-  match a with VSum l => Some (VSum l) | _ => None end.
+  match a with VSum l => Some (VSum l) | VL l => Some (VL l) | _ => None end.
 
 (* OpSum.product(list): left fold of [*]; the empty list gives the empty OpSum *)
 Definition obind {A B} (x : option A) (f : A -> option B) : option B :=
   match x with Some a => f a | None => None end.
+(* evaluation of a python list display: any element raising makes the whole expression raise *)
+Fixpoint oseq {A} (l : list (option A)) : option (list A) :=
+  match l with
+  | [] => Some []
+  | x :: t => match x, oseq t with Some a, Some r => Some (a :: r) | _, _ => None end
+  end.
 Definition v_sum_product (l : list val) : option val :=
   match l with
   | [] => Some (VSum [])
